@@ -1169,11 +1169,17 @@ fn body() {
             joins.push(spawn_thread(&sh, i, hs));
         }
     }
+    // C04 add-on: a producer / consumer pair on a queue of drop-glue-free values
+    let pod_joins = if sh.scn.pod != 0 { Some(crate::pod::start(sh.scn.pod, sh.scn.slow_view)) } else { None };
     for op in &sh.scn.main_prog {
         main.exec_op(op);
     }
     main.children.extend(joins);
     main.join_children();
+    if let Some((a, b)) = pod_joins {
+        let _ = a.join();
+        let _ = b.join();
+    }
     hist::set_phase(1);
     if sh.scn.probe {
         main.quiescent_probe();
